@@ -1,17 +1,21 @@
 # FMTPS — format module: PowerShell script signatures (lib/authenticode/powershell.go, signers/ps) and Debian package
 # signatures (lib/signdeb, signers/deb).  Serves C01 C02 C03 C05 C08 through body(ctx); run(ctx) is the standalone entry
 # (bin/check FMTPS).  The oracles in the first half are written from the format descriptions and never look at the model.
-import base64, collections, hashlib, json
+import base64, collections, hashlib, json, os, shutil, subprocess, tempfile
 from vlib.common import Hex
 
 ASPECT_THEOREMS = {
     "C01": ["ps_law_extract", "ps_law_extract_refuted", "ps_law_hashin", "ps_embed_total", "ps_refuses_clean", "ps_embed_refuses_clean",
             "ps_begin_first_refused", "ps_hashin_no_panic", "ps_extract_no_panic", "ps_utf16_refused_refuted", "ps_sign_then_verify",
             "deb_law_extract", "deb_law_extract_refuted", "deb_law_hashin", "deb_embed_total", "deb_refuses_clean", "deb_embed_refuses_clean",
-            "deb_refuses_clean_refuted", "deb_verifier_accepts_signed", "deb_sign_then_verify"],
+            "deb_refuses_clean_refuted", "deb_verifier_accepts_signed", "deb_sign_then_verify",
+            "deb_law_extract2", "deb_embed_total2", "deb_verifier_accepts_resigned", "deb_truncated_header_refused", "deb_sign_then_verify2"],
     "C08": ["ps_law_hashin", "ps_is_signed_spec", "ps_signed_after_embed", "ps_dom_preserved", "ps_resign_history",
-            "deb_law_hashin", "deb_is_signed_spec", "deb_wf_preserved", "deb_resign_history"],
-    "C03": ["ps_law_payload", "ps_law_payload_refuted", "ps_only_these_ranges_differ", "deb_law_payload", "deb_only_these_ranges_differ"],
+            "deb_law_hashin", "deb_is_signed_spec", "deb_wf_preserved", "deb_resign_history",
+            "ar_logical_of_spellings", "deb_norm_is_logical", "deb_norm_spellings", "deb_slot_replaced", "deb_slot_replaced_check",
+            "deb_wf2_preserved", "deb_wf_in_wf2", "deb_no_stale_signature", "deb_law_hashin2", "deb_slot_two_spellings_refuted", "deb_resign_history2"],
+    "C03": ["ps_law_payload", "ps_law_payload_refuted", "ps_only_these_ranges_differ", "deb_law_payload", "deb_only_these_ranges_differ",
+            "deb_law_payload2", "deb_slot_replaced"],
     "C02": ["ps_protect", "ps_protect_trailing_refuted", "ps_protect_separator_refuted",
             "deb_protect", "deb_check_sound", "deb_check_order_refuted", "deb_check_shadow_refuted"],
     "C05": ["ps_hashin_eq_spec", "ps_text_conversion_spec", "ps_embed_eq_spec", "deb_hashin_eq_spec", "deb_embed_eq_spec"],
@@ -106,6 +110,45 @@ def ps_dom_py(style, data):
 
 
 # ------------------------------------------------------------------ ar / deb, from the format description
+def ar_logical(field):
+    """logical member name of a 16-byte name field.  ar(5): the BSD / common variant pads the name with blanks; the System V / GNU
+    variant terminates it by a slash and then pads.  deb(5): member names might contain a trailing slash."""
+    n = field.rstrip(b" ")
+    return n[:-1] if n.endswith(b"/") else n
+
+
+def name_spelled_ok(field):
+    """the field is one of the two spellings of a proper name: printable, no slash inside, no blank at either end"""
+    n = ar_logical(field)
+    if not n or any(c < 32 or c > 126 or c == 47 for c in n) or n[:1] == b" " or n[-1:] == b" ":
+        return False
+    return field in (n.ljust(16, b" "), (n + b"/").ljust(16, b" ")) and len(field) == 16
+
+
+def deb_dom2_py(data, ctl_ok):
+    """domain of the slot statements: strict ar; canonical sizes; every name a spelling of a proper name; logical names pairwise
+    different; a readable control.tar* among the members that are not signatures"""
+    ents = ar_read(data)
+    if ents is None:
+        return False
+    has_ctl = False
+    for e in ents:
+        if not e["canon"] or len(e["data"]) >= 10 ** 10 or not name_spelled_ok(e["name16"]):
+            return False
+        mode = e["hdr"][40:48]
+        if len(mode[:1] + mode[1:].rstrip(b" ")) < 3:
+            return False
+        n = e["lname"]
+        if n.startswith(b"_gpg"):
+            continue
+        if n.startswith(b"control.tar"):
+            if n[11:] not in (b"", b".gz", b".bz2", b".xz") or e["data"].hex() not in ctl_ok:
+                return False
+            has_ctl = True
+    names = [e["lname"] for e in ents]
+    return has_ctl and len(set(names)) == len(names)
+
+
 def ar_read(data):
     if data[:8] != b"!<arch>\n":
         return None
@@ -120,7 +163,8 @@ def ar_read(data):
         n = int(s)
         if pos + 60 + n + (n & 1) > len(data) or (n & 1 and data[pos + 60 + n:pos + 61 + n] != b"\n"):
             return None
-        out.append({"hdr": h, "canon": s == str(n).encode(), "name16": h[:16], "name": h[:16].rstrip(b" "), "data": data[pos + 60:pos + 60 + n], "off": pos, "len": 60 + n + (n & 1)})
+        out.append({"hdr": h, "canon": s == str(n).encode(), "name16": h[:16], "name": h[:16].rstrip(b" "), "lname": ar_logical(h[:16]),
+                    "data": data[pos + 60:pos + 60 + n], "off": pos, "len": 60 + n + (n & 1)})
         pos += 60 + n + (n & 1)
     return out
 
@@ -137,6 +181,20 @@ def ar_read_loose(data):
         out.append((h[:16].rstrip(b" "), data[pos + 60:pos + 60 + n]))
         pos += 60 + n + (n & 1)
     return out
+
+
+def ar_cut_in_header(data):
+    """the archive ends inside a member header: members can be walked up to a position with fewer than 60 bytes left"""
+    if data[:8] != b"!<arch>\n":
+        return False
+    pos = 8
+    while pos + 60 <= len(data):
+        s = data[pos + 48:pos + 58].strip(b" ")
+        if not s.isdigit() or data[pos + 58:pos + 60] != b"`\n":
+            return False
+        n = int(s)
+        pos += 60 + n + (n & 1)
+    return pos < len(data)
 
 
 def ar_payload(ents):
@@ -258,6 +316,12 @@ def body(ctx, replay=None):
     DEB = [r for r in recs if r["kind"] == "deb"]
     MUT = [r for r in recs if r["kind"] in ("psmut", "debmut")]
     TXT = [r for r in recs if r["kind"] == "text"]
+    SLOT = [r for r in recs if r["kind"] == "debslot"]
+    NAMES = [r for r in recs if r["kind"] == "names"]
+    SLOTKEYS = ([r for r in recs if r["kind"] == "slotkeys"] or [None])[0]
+    for r in recs:
+        if r["kind"] == "note":
+            res["notes"].append("driver: " + r["text"])
     n_oracle = 0
     distinct = set()
     cls_count = collections.Counter()
@@ -377,6 +441,10 @@ def body(ctx, replay=None):
                 elif dom:
                     viol("C01", "deb:refused-wf", "a well-formed package was refused: %s" % r.get("err"), rp)
                 break
+            if ar_cut_in_header(cur):
+                # C01: what relic signs must verify; an archive that ends inside a member header cannot (deb_truncated_header_refused)
+                viol("C01", "deb:truncated-header-signed", "signdeb.Sign signs a package that ends inside a member header (%s); Verify: %s" % (c["cls"], r.get("ver_err")),
+                     {"cases": [dict(slim, file=c["file"], rounds=c["rounds"][:k + 1])]})
             n_oracle += 1
             out, blob = bytes.fromhex(r["out"]), bytes.fromhex(r["blob"])
             ei, eo = ar_read(cur), ar_read(out)
@@ -416,6 +484,146 @@ def body(ctx, replay=None):
                 if r["ver"] not in (0,) and not any(e for e in (eo or []) if e["name"].startswith(b"_gpg") and b"Hash" not in e["data"]):
                     potential("C11", "deb:signed-but-unverifiable", "signing succeeds on class %s but signdeb.Verify then fails: %s" % (c["cls"], r.get("ver_err")), rp)
             cur = out
+
+
+    # ================================================================ Debian signature slots: histories from third-party-signed packages
+    # Model-free, from the property text (C08: "signing an already-signed artifact (signed by relic or by the platform's own tool)
+    # yields a valid artifact whose payload equals the original's and in which the new signature has replaced the earlier one (formats
+    # with named signature slots, such as Debian signing roles, replace the slot of the same name)") and from ar(5) / deb(5) for what
+    # "the same name" means: the independent reader above compares LOGICAL member names.
+    slot_dom = {}
+    slot_stats = collections.Counter()
+    tool_jobs = []
+    for c in SLOT:
+        f = bytes.fromhex(c["file"])
+        cls_count["debslot/" + c["cls"].split(":")[0]] += 1
+        ok_ctl = set(c["ctl_ok"] or [])
+        slot_dom[c["id"]] = deb_dom2_py(f, ok_ctl)
+        if not c["intact"]:
+            viol("C01", "deb:refusal-modified-input", "a refused package was modified", {"cases": [{"kind": "debslot", "cls": c["cls"], "file": c["file"]}]})
+        cur = f
+        for k, r in enumerate(c["rounds"]):
+            slim = {"kind": "debslot", "id": c["id"], "cls": c["cls"], "writer": c["writer"], "file": c["file"], "ctl_ok": c["ctl_ok"], "keys": c["keys"],
+                    "ver_f": c["ver_f"], "roles_f": c["roles_f"], "intact": c["intact"], "rounds": c["rounds"][:k + 1]}
+            rp = {"cases": [slim], "round": k, "input_of_round": cur.hex(), "how": "signdeb.Sign(input_of_round, key=%s, %s, role=%r), patch applied with binpatch" % (r["key"], r["hash"], r["role"])}
+            role = r["role"].encode()
+            slotname = b"_gpg" + role
+            role_ok = 1 <= len(role) <= 12 and role.isalpha() and role.islower()
+            dom = deb_dom2_py(cur, ok_ctl) and role_ok
+            ei = ar_read(cur)
+            if r["status"] != 0 or r["emb"] != 0:
+                if dom:
+                    viol("C01", "deb:refused-wf", "a well-formed package (class %s) was refused: %s" % (c["cls"], r.get("err")), rp)
+                break
+            out, blob = bytes.fromhex(r["out"]), bytes.fromhex(r["blob"])
+            eo = ar_read(out)
+            if dom:
+                n_oracle += 1
+                old = [e for e in ei if e["lname"] == slotname]
+                spelling = "none" if not old else ("sysv-name" if old[0]["name"].endswith(b"/") else "plain-name")
+                slot_stats["%s/%s" % (c["writer"], spelling)] += 1
+                distinct.add(("debslot", c["writer"], spelling, len(role), len(ei), sum(1 for e in ei if e["lname"].startswith(b"_gpg")), len(cur) % 2))
+                if eo is None:
+                    viol("C08", "deb:output-not-an-archive", "the signed package is not a well-formed ar archive (%s)" % c["cls"], rp)
+                    break
+                mine = [e for e in eo if e["lname"] == slotname]
+                # exactly one member in the slot, and it is the signature just made
+                if len(mine) != 1 or mine[0]["data"] != blob:
+                    viol("C08", "deb:slot-not-replaced@" + spelling,
+                         "after signing role %r there are %d members whose name is _gpg%s (stored as %s); the earlier signature (stored as %s) was %s (%s)"
+                         % (r["role"], len(mine), r["role"], [e["name"].decode("latin-1") for e in mine], [e["name"].decode("latin-1") for e in old],
+                            "not replaced" if len(mine) > 1 else "lost", c["cls"]), rp)
+                else:
+                    # in place of the earlier one, or at the end
+                    idx = [i for i, e in enumerate(eo) if e["lname"] == slotname][0]
+                    want_idx = [i for i, e in enumerate(ei) if e["lname"] == slotname][0] if old else len(ei)
+                    if idx != want_idx:
+                        viol("C08", "deb:slot-moved", "the signature member is at position %d, expected %d (%s)" % (idx, want_idx, c["cls"]), rp)
+                # every other member: header and data, byte for byte, in order
+                if [(e["hdr"], e["data"]) for e in eo if e["lname"] != slotname] != [(e["hdr"], e["data"]) for e in ei if e["lname"] != slotname]:
+                    viol("C03", "deb:members-changed", "signing changed members other than the signature slot (%s)" % c["cls"], rp)
+                # the digest side: the signed manifest lists exactly the members that are not signatures, under the names they are stored with
+                try:
+                    head, lines = cs_lines(blob)
+                except Exception:
+                    head, lines = {}, None
+                # (names compared as logical names: a manifest may list a member as `ar t` prints it or as it is stored)
+                want = [sums(e["data"]) + (len(e["data"]), e["lname"]) for e in ei if not e["lname"].startswith(b"_gpg")]
+                if lines is not None:
+                    lines = [(a, b, n_, ar_logical(nm_)) for a, b, n_, nm_ in lines]
+                if lines != want or head.get("Role") != r["role"]:
+                    viol("C08", "deb:manifest-ne-spec", "the signed manifest does not list exactly the members that are not signatures (%s)" % c["cls"], rp)
+                hname = {"SHA-256": b"SHA256", "SHA-512": b"SHA512", "SHA-384": b"SHA384", "SHA-1": b"SHA1"}.get(r["hash"], r["hash"].encode())
+                if b"Hash: " + hname not in blob:
+                    viol("C01", "deb:wrong-digest-named", "the signature does not name the requested digest %s" % r["hash"], rp)
+                # relic's own verifier: with only the new key when no other role is signed; with every key otherwise (signatures of other
+                # roles made over the `ar t` names verify in relic only when the payload names are stored without the terminator)
+                others = [e for e in eo if e["lname"].startswith(b"_gpg") and e["lname"] != slotname]
+                plain_payload = all(e["name"] == e["lname"] for e in eo if not e["lname"].startswith(b"_gpg"))
+                real_others = all(b"BEGIN PGP SIGNED MESSAGE" in e["data"] for e in others)
+                if not others:
+                    if r["ver_new"] != 0 or (r["roles_new"] or []) != [r["role"]] or (r["signers"] or {}).get(r["role"]) != r["key_id"]:
+                        viol("C08", "deb:resigned-does-not-verify@" + spelling,
+                             "signdeb.Verify with only the new key in the keyring: status %s (%s), roles %s, signer %s, expected role %r signed by %s (%s)"
+                             % (r["ver_new"], r.get("ver_new_err"), r["roles_new"], (r["signers"] or {}).get(r["role"]), r["role"], r["key_id"], c["cls"]), rp)
+                elif plain_payload and real_others:
+                    if r["ver"] != 0 or (r["signers"] or {}).get(r["role"]) != r["key_id"]:
+                        viol("C08", "deb:resigned-does-not-verify@" + spelling,
+                             "signdeb.Verify with all keys: status %s (%s), role %r signed by %s, expected %s (%s)"
+                             % (r["ver"], r.get("ver_err"), r["role"], (r["signers"] or {}).get(r["role"]), r["key_id"], c["cls"]), rp)
+                else:
+                    slot_stats["verify-not-judged(other roles over `ar t` names in a System V archive)"] += 1
+                if len(tool_jobs) < (40 if ctx.tier == "thorough" else 14) and (c["writer"] == "gnu-ar" or k == 0 and c["id"] % 5 == 0 or "fixture" in c["cls"]):
+                    tool_jobs.append((c, k, r, cur, out, blob, rp, spelling))
+            cur = out
+
+    # independent tools on a sample of the outputs: GNU ar's listing, dpkg-deb, gpgv (each skipped when not installed)
+    tools = {t: shutil.which(t) for t in ("ar", "dpkg-deb", "gpgv")}
+    res["tools"] = {t: bool(p) for t, p in tools.items()}
+    if tool_jobs and any(tools.values()):
+        tdir = tempfile.mkdtemp(prefix="tools.", dir=ctx.scratch)
+        os.makedirs(os.path.join(tdir, "home"), mode=0o700)
+        if SLOTKEYS:
+            for nm, hx_ in SLOTKEYS["pub"].items():
+                open(os.path.join(tdir, nm + ".gpg"), "wb").write(bytes.fromhex(hx_))
+
+        def sh(args):
+            try:
+                p = subprocess.run(args, capture_output=True, timeout=60)
+                return p.returncode, p.stdout, p.stderr
+            except Exception as ex:
+                return -9, b"", str(ex).encode()
+        for j, (c, k, r, cur, out, blob, rp, spelling) in enumerate(tool_jobs):
+            pin, pout, psig = os.path.join(tdir, "in%d.deb" % j), os.path.join(tdir, "out%d.deb" % j), os.path.join(tdir, "sig%d.asc" % j)
+            open(pin, "wb").write(cur)
+            open(pout, "wb").write(out)
+            open(psig, "wb").write(blob)
+            if tools["ar"] and len(r["role"]) <= 11:
+                # (GNU ar prints only 15 characters of a name that fills the 16-byte field without a terminator)
+                rc, o, e = sh([tools["ar"], "t", pout])
+                n_oracle += 1
+                if rc != 0 or o.split(b"\n").count(b"_gpg" + r["role"].encode()) != 1:
+                    viol("C08", "deb:slot-not-replaced@" + spelling, "GNU `ar t` lists %d members _gpg%s in the signed package (rc %d) (%s)"
+                         % (o.split(b"\n").count(b"_gpg" + r["role"].encode()), r["role"], rc, c["cls"]), dict(rp, tool="ar t", listing=o.decode("latin-1")))
+            if tools["dpkg-deb"]:
+                rc0, _, _ = sh([tools["dpkg-deb"], "-I", pin])
+                rc1, _, e1 = sh([tools["dpkg-deb"], "-I", pout])
+                n_oracle += 1
+                if rc0 == 0 and rc1 != 0:
+                    viol("C08", "deb:dpkg-deb-rejects-signed", "dpkg-deb -I reads the package before signing and fails after: %s (%s)" % (e1[-200:].decode("latin-1"), c["cls"]), dict(rp, tool="dpkg-deb -I"))
+                if "fixture" in c["cls"]:
+                    rc0, l0, _ = sh([tools["dpkg-deb"], "-c", pin])
+                    rc1, l1, e1 = sh([tools["dpkg-deb"], "-c", pout])
+                    if rc0 == 0 and (rc1 != 0 or l0 != l1):
+                        viol("C03", "deb:dpkg-deb-contents-changed", "dpkg-deb -c differs after signing (%s)" % c["cls"], dict(rp, tool="dpkg-deb -c"))
+            if tools["gpgv"] and SLOTKEYS:
+                rc_good, _, eg = sh([tools["gpgv"], "--homedir", os.path.join(tdir, "home"), "--keyring", os.path.join(tdir, r["key"] + ".gpg"), psig])
+                rc_third, _, _ = sh([tools["gpgv"], "--homedir", os.path.join(tdir, "home"), "--keyring", os.path.join(tdir, "third.gpg"), psig])
+                n_oracle += 1
+                if rc_good != 0 or rc_third == 0:
+                    viol("C01", "deb:gpgv-rejects-signature", "gpgv with the signing key: rc %d, with the third party's key: rc %d (%s) (%s)" % (rc_good, rc_third, eg[-200:].decode("latin-1"), c["cls"]), dict(rp, tool="gpgv"))
+        shutil.rmtree(tdir, ignore_errors=True)
+    res["slot_stats"] = dict(slot_stats)
 
     # ================================================================ mutations (C02)
     mut_stats = {}
@@ -515,7 +723,10 @@ def body(ctx, replay=None):
         for t in TXT:
             vals.append([5, t["cps"]])
             meta.append(("text", t, 0, None))
-        for c in DEB:
+        for t in NAMES:
+            vals.append([6, Hex(t["name"])])
+            meta.append(("names", t, 0, None))
+        for c in DEB + SLOT:
             cur = c["file"]
             for k, r in enumerate(c["rounds"]):
                 vals.append([2, Hex(r["role"].encode().hex()), r["mtime"], Hex(cur), Hex(r["blob"]), [Hex(x) for x in (c["ctl_ok"] or [])]])
@@ -607,12 +818,8 @@ def body(ctx, replay=None):
             elif kind == "deb":
                 r = c["rounds"][k]
                 slim = {"kind": "deb", "id": c["id"], "cls": c["cls"], "file": cur if len(cur) < 8000 else cur[:8000] + "...", "role": r["role"], "round": k}
-                scan, emb, exg, sigs, wf, pf, pg, spec_ok, hsame = mv
+                scan, emb, exg, sigs, wf, pf, pg, spec_ok, hsame, wf2, spec_ok2, slot_ok, wf2g, lnames = mv
                 ms = scan[0]
-                if ms == 90:
-                    mism["deb:unmodelled-name(skipped)"] += 0
-                    res["notes"].append("deb: member name with '/' is outside the model (path.Clean): case %s skipped" % c["cls"])
-                    continue
                 mstat = 99 if ms >= 100 else ms
                 fb = bytes.fromhex(cur)
                 if mstat == 11 and r["status"] == 10:
@@ -630,7 +837,8 @@ def body(ctx, replay=None):
                 except Exception:
                     lines = None
                 pd = deb_dom_py(fb, set(c["ctl_ok"] or []))
-                signed = [(bytes.fromhex(nm), sz, bytes.fromhex(dt)) for nm, sz, dt, off in scan[1] if not bytes.fromhex(nm).startswith(b"_gpg")]
+                # members Sign lists: those whose NORMALISED name (5th field, deb_norm generated from debsign.go) is not _gpg*; listed under the stored name
+                signed = [(bytes.fromhex(ln), sz, bytes.fromhex(dt)) for nm, sz, dt, off, cn, ln in scan[1] if not bytes.fromhex(cn).startswith(b"_gpg")]
                 want = [sums(dt) + (sz, nm) for nm, sz, dt in signed]
                 if lines != want and (lines is not None or pd):
                     bad("deb:manifest-vs-model-members", slim, {"lines": str(lines)[:300], "model": str(want)[:300]})
@@ -666,6 +874,31 @@ def body(ctx, replay=None):
                         bad("deb:hashin-after-embed", slim)
                     if pg[0] != 0 or pg[1] != pf[1]:
                         bad("deb:payload-after-embed", slim)
+                # the extended domain (member names in either ar dialect): the two statements of the domain, the specification's logical
+                # names against the Python reader's, and the slot theorem's conclusion evaluated by the model on this very input
+                pd2 = deb_dom2_py(fb, set(c["ctl_ok"] or []))
+                if bool(wf2) != pd2:
+                    bad("deb:domain2-definitions-differ", slim, [wf2, pd2])
+                if ents is not None and [bytes.fromhex(x) for x in lnames] != [e["lname"] for e in ents]:
+                    bad("deb:logical-names", slim, [lnames[:6]])
+                if pd2 and r["emb"] == 0 and 1 <= len(role) <= 12 and role.isalpha() and role.islower():
+                    if not spec_ok2:
+                        bad("deb:spec-embed-by-logical-name", slim)
+                    if slot_ok != 1:
+                        bad("deb:slot-replaced-in-model", slim, [slot_ok])
+                    if wf2g != 1:
+                        bad("deb:domain2-not-preserved", slim)
+                    if hsame != 1:
+                        bad("deb:hashin-after-embed", slim)
+                    if pg[0] != 0 or pg[1] != pf[1]:
+                        bad("deb:payload-after-embed", slim)
+            elif kind == "names":
+                nm = bytes.fromhex(c["name"])
+                nf = len(c["out"])
+                if list(mv[:nf]) != list(c["out"]):
+                    bad("names:go-string-functions", {"kind": "names", "name": c["name"], "real": c["out"]}, list(mv[:nf]))
+                if len(nm) <= 16 and bytes.fromhex(mv[nf + 1]) != ar_logical(nm.ljust(16, b" ")):
+                    bad("names:logical-name", {"kind": "names", "name": c["name"]}, [mv[nf + 1]])
             elif kind == "debv":
                 sigs, vms, pf = mv
                 slim = {"kind": "deb", "id": c["id"], "cls": c["cls"], "file": cur if len(cur) < 8000 else cur[:8000] + "..."}
@@ -727,7 +960,7 @@ def body(ctx, replay=None):
                     continue        # the PGP layer decides these
                 head, lines = cs_lines(orig_blob)
                 ln = [[Hex((a + " " + b).encode().hex()), Hex(n.hex())] for a, b, s, n in lines]
-                dg = [[Hex(nm), Hex(" ".join(sums(bytes.fromhex(dt))).encode().hex())] for nm, sz, dt, off in vms[1]]
+                dg = [[Hex(nm), Hex(" ".join(sums(bytes.fromhex(dt))).encode().hex())] for nm, sz, dt, off, _cn, _ln in vms[1]]
                 vals2.append([4, ln, dg])
                 meta2.append((slim, stt))
         if vals2:
@@ -737,15 +970,22 @@ def body(ctx, replay=None):
                     bad("deb:checksig-class", slim, [cst, stt])
                 elif stt not in (0, 13, 14, 15, -1) and cst == 0 and stt != 20:
                     bad("deb:checksig-class", slim, [cst, stt])
+        SPEC_IN_MODEL = ("deb:spec-embed", "deb:spec-embed-by-logical-name", "deb:slot-replaced-in-model", "deb:domain2-not-preserved", "deb:hashin-after-embed",
+                         "deb:payload-after-embed", "ps:spec-embed", "ps:hashin-after-embed")
         for key, n in mism.items():
             if n:
-                viol("C01", "correspondence:" + key, "model and implementation disagree on %d case(s): %s" % (n, key),
-                     dict(first[key], broken="correspondence FmtPS.Run (" + key + ")"), False)
+                if key in SPEC_IN_MODEL:
+                    msg = "the model (which follows the code) no longer meets the specification function on %d generated case(s): %s" % (n, key)
+                else:
+                    msg = "model and implementation disagree on %d case(s): %s" % (n, key)
+                viol("C01", "correspondence:" + key, msg, dict(first[key], broken="correspondence FmtPS.Run (" + key + ")"), False)
 
     res.update({"evaluations": evaluated + n_oracle, "distinct": len(distinct), "kinds": dict(cls_count), "mutations": mut_stats,
                 "mismatches": {k: v for k, v in mism.items() if v},
                 "samples": [{k: c[k] for k in ("kind", "cls", "style", "file")} for c in PS[4:6]] + [{"kind": "deb", "cls": c["cls"], "file": c["file"][:400]} for c in DEB[:1]],
-                "cases": {"ps": len(PS), "deb": len(DEB), "mutation_samples": len(MUT), "text": len(TXT),
+                "slot_histories": res.get("slot_stats"), "independent_tools": res.get("tools"),
+                "cases": {"ps": len(PS), "deb": len(DEB), "mutation_samples": len(MUT), "text": len(TXT), "debslot": len(SLOT), "names": len(NAMES),
+                          "debslot_rounds_in_domain": sum((res.get("slot_stats") or {}).get(k, 0) for k in (res.get("slot_stats") or {}) if "/" in k and "verify" not in k),
                           "ps_in_domain": sum(1 for v in ps_dom.values() if v), "deb_in_domain": sum(1 for v in deb_dom.values() if v)}})
     for what, ent in sorted(res["potential_findings"].items()):
         res["notes"].append("potential finding (%s) %s x%d: %s" % (ent["aspect"], what, ent["count"], ent["detail"]))
@@ -757,9 +997,10 @@ def run(ctx, replay=None):
     ctx.unit = "fmtps"
     cov_body = body(ctx, replay)
     ctx.proof_verdict()
-    cov = ctx.proof_coverage(["srcgen translator (marker strings, style/extension tables, string-building expressions and branch conditions of DigestPowershell/detectUtf16/readLine/VerifyPowershell/MakePatch, signdeb.Sign/Verify/checkSig, control.tar suffix switch, ar header literal)",
+    cov = ctx.proof_coverage(["srcgen translator (marker strings, style/extension tables, string-building expressions and branch conditions of DigestPowershell/detectUtf16/readLine/VerifyPowershell/MakePatch, signdeb.Sign/Verify/checkSig, control.tar suffix switch, ar header literal; "
+                              "for the Debian member loop: the member-name normalisation `name := ...(hdr.Name)` as an expression over modelled Go string functions, the name written into the Files: line, the statement order of the loop (slot test before the _gpg skip), the error branch after reader.Next(), Verify's map keys)",
                               "correspondence harness cmd/drv-fmtps (real authenticode.DigestPowershell / PsDigest.MakePatch / PsDigest.Sign / VerifyPowershell, signdeb.Sign / Verify, binpatch Dump/Load/Apply on temp files, functest RSA key and OpenPGP certificate)",
-                              "hand-modelled Go library functions: []rune(string), utf16.Encode/Decode, base64.StdEncoding, strconv, github.com/blakesmith/ar reader and writer (all inside the correspondence check)",
+                              "hand-modelled Go library functions: []rune(string), utf16.Encode/Decode, base64.StdEncoding, strconv, github.com/blakesmith/ar reader and writer, path.Clean / path.Base / strings.Trim* (all inside the correspondence check)",
                               "control.tar parsing (gzip/xz/bzip2/tar) is an oracle parameter of the Debian model; the harness supplies it from its own reader"],
                              ["lib/authenticode:.DigestPowershell", "lib/authenticode:.detectUtf16", "lib/authenticode:.VerifyPowershell", "lib/authenticode:.readLine",
                               "lib/authenticode:.toUtf16", "lib/authenticode:.writeUtf16", "lib/authenticode:.fromUtf16", "lib/authenticode:PsDigest.", "lib/signdeb:"])
@@ -768,9 +1009,12 @@ def run(ctx, replay=None):
                         "x marker look-alikes x generator-written signature blocks incl. malformed ones) x blob lengths around the 48-byte base64 line boundary, three signing rounds each, real RSA signatures on six inputs "
                         "and the fixtures hello.ps1/.ps1xml/.mof; harness-owned ar generator (member counts, odd/even sizes, name lengths, foreign and same-role _gpg members in every position, control.tar variants, "
                         "header field oddities, truncation, missing padding, duplicates) x roles, three rounds each, and zlib1g_1.2.8.dfsg-5_i386.deb; single-byte mutations of every content/separator offset of six signed scripts "
-                        "and of a signed package; non-trivial = distinct (format, style/encoding/signedness or member layout, class) combinations inside the stated domains that were signed successfully (measured)",
+                        "and of a signed package; signature-slot histories: packages already signed by a third party (own dpkg-sig style manifest + go-crypto clearsign, own key) whose _gpg<role> member is stored "
+                        "in the BSD / common or the System V / GNU spelling (own ar writer and /usr/bin/ar, payload names in either dialect, slot at the end / in the middle, other roles present in both spellings, "
+                        "member names of 11 / 15 / 16 characters, occupants of odd and even length), then signed by relic two to four times with two keys and three digests, verified with only the last key; "
+                        "GNU ar listing, dpkg-deb and gpgv on a sample; a sweep of path.Clean / path.Base / strings.Trim* against their models; non-trivial = distinct (format, style/encoding/signedness or member layout, class) combinations inside the stated domains that were signed successfully (measured)",
                 "samples": cov_body["samples"], "input_distribution": cov_body.get("kinds"), "mutation_sweep": cov_body.get("mutations"),
-                "case_counts": cov_body.get("cases"), "model_mismatches": cov_body.get("mismatches"), "aspect_theorems": ASPECT_THEOREMS,
+                "case_counts": cov_body.get("cases"), "slot_histories": cov_body.get("slot_histories"), "independent_tools": cov_body.get("independent_tools"), "model_mismatches": cov_body.get("mismatches"), "aspect_theorems": ASPECT_THEOREMS,
                 "potential_findings": {k: {"aspect": v["aspect"], "key": v["key"], "detail": v["detail"], "count": v["count"], "classes": v["classes"][:8]} for k, v in cov_body.get("potential_findings", {}).items()},
                 "format_notes": cov_body["notes"]})
     for n in cov_body["notes"]:
